@@ -1,5 +1,5 @@
 // C19: GradientDescent returns its best accepted iterate within the iteration cap.
-// args: variant(0 adaptive, 1 adaptive+symbolic projection, 2 constant step) dims maxcap tolmode(0: tol=0, 1: symbolic tol)
+// args: variant(0 adaptive, 1 adaptive+symbolic projection, 2 constant step) dims maxcap tolmode(0: tol=0, 1: symbolic tol) [pset: stepsize parameter triple 0..3]
 #include "TasmanianOptimization.hpp"
 #include "fpsym.h"
 using namespace TasOptimization;
@@ -19,7 +19,7 @@ static void run_adaptive(int variant, int dims, int cap, double tol, double s0, 
 }
 
 int main(int argc, char **argv){
-  int variant = atoi(argv[1]), dims = atoi(argv[2]), maxcap = atoi(argv[3]), tolmode = atoi(argv[4]);
+  int variant = atoi(argv[1]), dims = atoi(argv[2]), maxcap = atoi(argv[3]), tolmode = atoi(argv[4]); int pset = argc > 5 ? atoi(argv[5]) : 0;   // pset: (initial step, increase, decrease) triple
   int cap = fpsym_choice(1, maxcap + 1, maxcap);
   double tol = tolmode ? fpsym_symbolic(0.01, 2, 0.0, 2.0) : 0.0;
   std::vector<double> start(dims); for (int j=0;j<dims;j++) start[j] = fpsym_symbolic(1.0 + 0.5 * j, 10 + j, -2.0, 2.0);
@@ -46,7 +46,8 @@ int main(int argc, char **argv){
     if (cap > 0 && dims > 0) fpsym_nonconst(x[0], "witness: final point depends on the inputs");
     fpsym_finish(); return 0;
   }
-  double s0 = 0.5, inc = 2.0, dec = 2.0;
+  const double PS[4][3] = {{0.5, 2.0, 2.0}, {1.0, 3.0, 4.0}, {0.25, 1.5, 2.5}, {2.0, 1.25, 8.0}};
+  double s0 = PS[pset % 4][0], inc = PS[pset % 4][1], dec = PS[pset % 4][2];
   std::vector<Event> ev; std::vector<double> xret; int performed = 0; double stepret;
   run_adaptive(variant, dims, cap, tol, s0, inc, dec, start, ev, xret, performed, stepret);
   // trials = objective calls after the first one
